@@ -114,6 +114,12 @@ def do_write(X, sparse: bool, ev: dict, k: int):
         r = a["rhs"]
         if r["kind"] == "scalar":
             val = float(r["val"]) if r["val"] != 0 or k % 2 else 0
+            # the type of a scalar right-hand side is a presentation (as in harness/c03.py)
+            lay = bind.get_layout()
+            if lay == "swapped":
+                val = np.int64(val) if float(val).is_integer() else np.float64(val)
+            elif lay == "strided":
+                val = np.float32(val)
         else:
             blk = bind.g_dense(r)
             if sparse:
